@@ -35,7 +35,10 @@ class QueryInterp(TextInterp):
 
     def on_load_attr(self, base, attr, node, frame):
         if isinstance(base, Obj) and base.cls == 'DataQuerent' and attr == 'path_parser':
-            return Obj('NodePathParser', {'bare_id_matches_all': True})
+            # the parser as its constructor leaves it (one per query: what a parser keeps between two parses is decided by C15.R1)
+            p = Interp.construct(self, 'NodePathParser', [], {}, node, frame)
+            p.fields.setdefault('bare_id_matches_all', True)
+            return p
         return TextInterp.on_load_attr(self, base, attr, node, frame)
 
     def construct(self, cname, args, kwargs, node, frame):
@@ -453,6 +456,10 @@ def run(repo, check):
     known_c09 = set(k['ident'].split(':', 1)[1] for k in load_known().get('known', []) if k.get('ident', '').startswith('C09.R1:'))
     _sh(check, repo, _c09.rule_r1, 'C16.R6', 'the tree that is queried holds every flat value once: coder / wirer lockstep (shared with C09.R1)', args=('C16.R6',),
         keep=lambda f: f.key not in known_c09)
+    from sa.rules import c13 as _c13
+    from sa.rules.common import share as _share
+    _share(check, repo, _c13.rule_r3, 'C16.R7', 'a query does not depend on the queries made before it: parser and querent keep nothing between calls (shared with C13.R3)',
+           keep=lambda f: any(k in f.key for k in ('NodePathParser', 'DataQuerent', 'QueryResult')))
     check.assumptions = ['the reference evaluates only / and . steps with slices over the nested JSON rendering (faithfulness of that rendering: C09.R5); the descendant '
                          'separator is covered only through bare IDs of ordinary elements, as the property states',
                          'results on real messages additionally depend on the wiring (C07, C09); the fold uses hand-built wired trees']
